@@ -253,6 +253,38 @@ impl<'a> G<'a> {
     }
 }
 
+pub fn hex(b: &[u8]) -> String { b.iter().map(|x| format!("{:02x}", x)).collect() }
+/// Byte-level mutation of a document: bit flips, inserts, deletes, splices, truncation, invalid UTF-8,
+/// control characters, hostile numeric attributes.
+pub fn mutate(r: &mut Rng, src: &[u8]) -> Vec<u8> {
+    let mut b = src.to_vec();
+    let n = 1 + r.below(8);
+    for _ in 0..n {
+        if b.is_empty() { b.extend_from_slice(b"<p>"); }
+        let len = b.len() as u64;
+        match r.below(12) {
+            0 => { let i = r.below(len) as usize; b[i] ^= 1 << r.below(8); }
+            1 => { let i = r.below(len) as usize; b.remove(i); }
+            2 => { let i = r.below(len + 1) as usize; b.insert(i, r.below(256) as u8); }
+            3 => { let i = r.below(len) as usize; let j = (i + r.below(40) as usize).min(b.len()); let chunk: Vec<u8> = b[i..j].to_vec();
+                   let k = r.below(len + 1) as usize; for (o, x) in chunk.into_iter().enumerate() { b.insert((k + o).min(b.len()), x); } }
+            4 => { let i = r.below(len) as usize; b.truncate(i); }
+            5 => { let i = r.below(len + 1) as usize; for (o, x) in [0xC3u8, 0x28, 0xFF, 0xFE, 0xED, 0xA0, 0x80].iter().take(1 + r.below(7) as usize).enumerate() { b.insert((i + o).min(b.len()), *x); } }
+            6 => { let i = r.below(len + 1) as usize; b.insert(i, *r.pick(&[0u8, 1, 7, 8, 11, 12, 13, 27, 127])); }
+            7 => { let i = r.below(len + 1) as usize; let t: &[u8] = *r.pick(&[&b"<table>"[..], b"<tr>", b"<td colspan=0>", b"<td colspan=18446744073709551615>", b"<ol start=-9223372036854775808>",
+                       b"<ol start=9223372036854775807>", b"</table>", b"<pre>", b"</p>", b"<li>", b"<a href=", b"<!--", b"-->", b"<td colspan=3>", b"<th>", b"<blockquote>", b"<style>", b"</style>", b"<svg>", b"<template>", b"<select>"]);
+                   for (o, x) in t.iter().enumerate() { b.insert((i + o).min(b.len()), *x); } }
+            8 => { // rewrite a digit run into a hostile number
+                   if let Some(i) = b.iter().position(|c| c.is_ascii_digit()) { let t: &[u8] = *r.pick(&[&b"0"[..], b"-1", b"99999999999999999999", b"4294967296", b"65536", b"-0", b"1e9", b"+7"]);
+                       b.remove(i); for (o, x) in t.iter().enumerate() { b.insert(i + o, *x); } } }
+            9 => { let i = r.below(len) as usize; let j = (i + r.below(30) as usize).min(b.len()); b.drain(i..j); }
+            10 => { let i = r.below(len + 1) as usize; for (o, x) in "\u{301}\u{200b}\u{fe0f}\u{202e}".bytes().enumerate() { b.insert((i + o).min(b.len()), x); } }
+            _ => { let i = r.below(len) as usize; b[i] = *r.pick(&[b'<', b'>', b'&', b'"', b'=', b' ', b'/']); }
+        }
+    }
+    b
+}
+
 pub fn cfg(deco: &str, ops: Vec<Value>) -> Value { json!({"deco": deco, "ops": ops}) }
 pub fn run(html: &str, w: u64, cfg: Value, route: &str) -> Value { json!({"html": html, "w": w, "cfg": cfg, "route": route}) }
 
